@@ -1,7 +1,7 @@
 (* C09_Proofs.v — collects the proof files of C09 and states the clauses that are NOT proved. *)
 From Coq Require Import ZArith List Bool Arith.
 From PV Require Import Base.U64 C09.C09_Common C09.C09_Unbuf C09.C09_Buf.
-From PV Require Export C09.C09_Witness C09.C09_BufProofs C09.C09_UnbufProofs.
+From PV Require Export C09.C09_Witness C09.C09_BufProofs C09.C09_UnbufProofs C09.C09_TimeProofs.
 Import ListNotations.
 Local Open Scope Z_scope.
 
@@ -39,9 +39,7 @@ Qed.
    Missing: the invariant "a thread woken by the timer has deadline <= now, and the deadline of a
    sleep is the call's expiration", which needs the wake state and ts_wakeup that the ledger core
    abstracts. *)
-Definition chan_timeout_reason_unbuffered : Prop :=
-  forall progs now0 s e, ureach true progs now0 s -> In e (u_log s) -> e_r e = RTimeout ->
-    expired (e_now e) (e_exp e) = true.
+(* the unbuffered half is PROVED: C09_TimeProofs.unbuf_timeout_reason (both code variants) *)
 Definition chan_timeout_reason_buffered : Prop :=
   forall fx mcap progs now0 s e, breach fx mcap progs now0 s -> In e (b_log s) -> e_r e = RTimeout ->
     expired (e_now e) (e_exp e) = true.
